@@ -5,6 +5,7 @@ import CifModel.Lemmas.StoreRefine
 import CifModel.Lemmas.StoreRefineQ
 import CifModel.Lemmas.StoreRefineS
 import CifModel.Lemmas.StoreRefineR
+import CifModel.Lemmas.StoreRefineC
 /-
   Property C04 — the managed CIF behaves as the documented data model under any API history.
 
@@ -622,14 +623,14 @@ theorem C04_refines_get_block (norm : Str → Str) (s : Store) (n : Name) (hn : 
 /-- C04_refines, block level, proved: cif_create_block commutes with `abs`: on success the documented model gains exactly one
     empty block under the given spelling and everything else is as before; it fails with the same code exactly when the
     documented model refuses (invalid code, duplicate after normalisation), leaving the store identical.
-    Hypotheses: block names are stored normalised (`BlocksNormOK`), the next id is unused (`IdFresh`; AUTOINCREMENT). -/
+    Hypotheses: the store invariant (every reachable state) and block names stored normalised (`BlocksNormOK`; `norm` is C09's). -/
 theorem C04_refines_create_block (norm : Str → Str) (s : Store) (n : Name) (hac : s.autocommit = true)
-    (hn : BlocksNormOK norm s.db) (hfresh : IdFresh s.db) :
+    (hn : BlocksNormOK norm s.db) (hinv : Inv s.db) :
     match (createBlock s (some n)).2 with
     | .ok h => specCreateBlock norm (abs s.db) n.key n.orig n.valid = .ok (abs (createBlock s (some n)).1.db) ∧ h.code = n.orig ∧
                (createBlock s (some n)).1.autocommit = true
     | .error c => specCreateBlock norm (abs s.db) n.key n.orig n.valid = .error c ∧ (createBlock s (some n)).1 = s :=
-  createBlock_refines norm s n hac hn hfresh
+  createBlock_refines norm s n hac hn hinv.idFresh
 
 /-- C04_refines, frame level, proved: cif_container_get_frame returns exactly the save frame the documented model finds among the
     container's frames (whatever nesting depth `fuel` the container is viewed at), CIF_NOSUCH_FRAME exactly when there is none,
@@ -642,15 +643,15 @@ theorem C04_refines_get_frame (norm : Str → Str) (s : Store) (hd : CH) (n : Na
   getFrame_refines norm s hd n fuel hn
 
 /-- C04_refines, loop level, proved for create_loop (container-local form; `absLoops d cid` is exactly the loop list `abs` shows for
-    container `cid`): on success the container gains one loop — given category, given names in the given spelling and order, no
-    packet — appended; every other loop of the CIF is what it was; blocks and frames untouched.  Hypothesis beyond `Inv`:
-    `LoopNumsBelow` (loop numbers stay below next_loop_num — what tr1_unnumbered_loop guarantees; not yet part of `Inv`). -/
+    container `cid`): in every state satisfying the invariant — so in every reachable state (`C04_inv_reachable`) — on success the
+    container gains one loop — given category, given names in the given spelling and order, no packet — appended; every other
+    loop of the CIF is what it was; blocks and frames untouched. -/
 theorem C04_refines_create_loop (d d' : Db) (cid : Nat) (cat : Option Str) (names : List Name) (l : LH) (h : Inv d)
-    (hb : LoopNumsBelow d cid) (he : createLoopBody cid cat names d = .ok (d', l)) :
+    (he : createLoopBody cid cat names d = .ok (d', l)) :
     absLoops d' cid = absLoops d cid ++ [{ category := cat, names := names.map (·.orig), packets := [] }] ∧
     (∀ cid', cid' ≠ cid → absLoops d' cid' = absLoops d cid') ∧
     d'.frames = d.frames ∧ d'.blocks = d.blocks ∧ l.cid = cid ∧ l.category = cat :=
-  createLoop_refines d d' cid cat names l h hb he
+  createLoop_refines d d' cid cat names l h (fun c hc hid x hx hxc => h.loopNumsBelow c hc x hx (by rw [hxc, hid])) he
 
 /-- C04_refines, loop level, proved for add_packet (container-local form): on success the target loop gains exactly one packet at the
     end — the given values, the unknown value for the items the packet omits (`packetFor`, which is the packet of
@@ -722,6 +723,116 @@ theorem C04_refines_destroy_loop (d : Db) (x : LoopRow) (h : Inv d) :
     (∀ y ∈ d.loops, ¬(y.cid = x.cid ∧ y.loopNum = x.loopNum) → absLoop d' y = absLoop d y) ∧
     d'.frames = d.frames ∧ d'.blocks = d.blocks :=
   destroyLoop_refines d x h
+
+/-- C04_refines, loop level, proved for set_category (the UPDATE matched the loop): the loop gets the category and keeps names and
+    packets; every other loop of the CIF is what it was; item, value, block, frame tables untouched.  (That the reserved category
+    "" is neither given nor taken: `scalar_category_cannot_be_given`, `scalar_category_cannot_be_taken`.) -/
+theorem C04_refines_set_category (d d' : Db) (cid ln : Nat) (cat : Option Str) (he : d.setCategory cid ln cat = .ok (d', 1)) :
+    d'.loops = d.loops.map (fun l => if l.cid == cid && l.loopNum == ln then { l with category := cat } else l) ∧
+    (∀ x : LoopRow, x.cid = cid → x.loopNum = ln → absLoop d' { x with category := cat } = { absLoop d x with category := cat }) ∧
+    (∀ y : LoopRow, absLoop d' y = absLoop d y) ∧
+    d'.items = d.items ∧ d'.values = d.values ∧ d'.frames = d.frames ∧ d'.blocks = d.blocks :=
+  setCategory_refines d d' cid ln cat he
+
+/-- C04_refines, loop level, proved for add_item: on success the loop gains the name — given spelling, last position — and the given
+    value as the last entry of EVERY packet; nothing else of the loop changes; every other loop of the CIF is what it was. -/
+theorem C04_refines_add_item (d d' : Db) (l : LH) (key orig : Str) (v : V) (n : Nat) (x : LoopRow) (h : Inv d) (hx : x ∈ d.loops)
+    (hxk : x.cid = l.cid ∧ x.loopNum = l.loopNum) (he : addItemBody l key orig v d = .ok (d', n)) :
+    absLoop d' x = { category := x.category, names := (absLoop d x).names ++ [orig],
+                     packets := (absLoop d x).packets.map (fun p => p ++ [v]) } ∧
+    (∀ y ∈ d.loops, ¬(y.cid = x.cid ∧ y.loopNum = x.loopNum) → absLoop d' y = absLoop d y) ∧
+    d'.loops = d.loops ∧ d'.frames = d.frames ∧ d'.blocks = d.blocks :=
+  addItem_refines d d' l key orig v n x h hx hxk he
+
+/-- C04_refines, loop level, proved for prune: exactly the loops of the container that have no packet in the documented model
+    disappear (`prune_selects`); every other loop of the CIF is what it was; block and frame tables untouched. -/
+theorem C04_refines_prune (d : Db) (cid : Nat) (h : Inv d) :
+    (d.prune cid).loops = d.loops.filter (fun l => !(l.cid == cid && (absLoop d l).packets.isEmpty)) ∧
+    (∀ y ∈ d.loops, ¬(y.cid = cid ∧ (absLoop d y).packets = []) → absLoop (d.prune cid) y = absLoop d y) ∧
+    (d.prune cid).frames = d.frames ∧ (d.prune cid).blocks = d.blocks := by
+  let p : LoopRow → Bool := fun l => l.cid == cid && !(d.items.any (fun i => i.cid == cid && i.loopNum == l.loopNum
+      && d.values.any (fun v => v.cid == cid && v.name == i.name)))
+  have hr := deleteLoops_refines d p h (fun a b hc hl => by simp only [p, hc, hl])
+  have hsel : ∀ l : LoopRow, p l = (l.cid == cid && (absLoop d l).packets.isEmpty) := by
+    intro l
+    cases hc : (l.cid == cid) with
+    | false => simp [p, hc]
+    | true =>
+      have hl : l.cid = cid := by simpa using hc
+      have := prune_selects d cid l hl
+      cases hp : p l with
+      | true =>
+        have h1 : (absLoop d l).packets = [] := this.mp (show p l = true from hp)
+        simp [h1]
+      | false =>
+        cases he : (absLoop d l).packets with
+        | nil =>
+          have h2 : p l = true := this.mpr he
+          rw [hp] at h2; cases h2
+        | cons a as => simp
+  refine ⟨?_, ?_, hr.2.2.1, hr.2.2.2⟩
+  · show (d.deleteLoops p).loops = _
+    rw [hr.1]
+    apply List.filter_congr
+    intro l _
+    rw [hsel l]
+  · intro y hy hne
+    apply hr.2.1 y hy
+    rw [hsel y]
+    cases hc : (y.cid == cid) with
+    | false => simp
+    | true =>
+      have hyc : y.cid = cid := by simpa using hc
+      cases he : (absLoop d y).packets with
+      | nil => exact absurd ⟨hyc, he⟩ hne
+      | cons a as => simp
+
+/-- C04_refines, loop level, set_value of a NEW item ("… or adds a new scalar"), the composition cif_container_add_scalar runs on the
+    scalar loop `x` (found, or just created empty by create_loop_internal — `C04_refines_create_loop` with no names):
+    (a) cif_loop_add_item_internal reports the number `n` of packets the scalar loop has;
+    (b) after it the loop has the new name last and the value as last entry of every packet — so with one packet (n = 1) the job
+        is done: the scalar loop's only packet now also holds the new item;
+    (c) with no packet (n = 0) the following cif_loop_add_packet of {item ↦ value} gives the loop EXACTLY ONE packet, holding the
+        value for the new item and the unknown value for every other scalar item — `RowsBelow` holds here because the loop has no
+        packet, no extra hypothesis.  (The other scalar items get nothing STORED: the same omission as F30.) -/
+theorem C04_refines_set_value_new (d d1 : Db) (l : LH) (key orig : Str) (v : V) (n : Nat) (x : LoopRow) (h : Inv d) (hx : x ∈ d.loops)
+    (hxk : x.cid = l.cid ∧ x.loopNum = l.loopNum) (he : addItemBody l key orig v d = .ok (d1, n)) :
+    n = (absLoop d x).packets.length ∧
+    absLoop d1 x = { category := x.category, names := (absLoop d x).names ++ [orig],
+                     packets := (absLoop d x).packets.map (fun p => p ++ [v]) } ∧
+    (n = 0 → ∀ d2, addPacketBody l [(key, v)] d1 = .ok (d2, ()) →
+      (∀ cid', absLoops d2 cid' = (d1.loops.filter (fun y => y.cid == cid')).map (fun y =>
+          if y.cid == l.cid && y.loopNum == l.loopNum then
+            { absLoop d1 y with packets := [packetFor d1 l.cid l.loopNum [(key, v)]] }
+          else absLoop d1 y))) := by
+  have hcount := addItemBody_count d d1 l key orig v n x h hxk he
+  have hadd := addItem_refines d d1 l key orig v n x h hx hxk he
+  refine ⟨hcount, hadd.1, ?_⟩
+  intro hn d2 hp
+  have hinv1 : Inv d1 := addItemBody_inv l key orig v d d1 n h he
+  have hnil : (absLoop d x).packets = [] := by
+    cases hps : (absLoop d x).packets with
+    | nil => rfl
+    | cons a as => rw [hps] at hcount; simp at hcount; omega
+  have hnil1 : (absLoop d1 x).packets = [] := by rw [hadd.1, hnil]; rfl
+  have hrb : RowsBelow d1 l.cid l.loopNum := by
+    have := rowsBelow_of_no_packets d1 x hnil1
+    rw [hxk.1, hxk.2] at this; exact this
+  have hx1 : x ∈ d1.loops := by rw [hadd.2.2.1]; exact hx
+  have href := (addPacket_refines d1 d2 l [(key, v)] hinv1 hrb (by simp) hp).1
+  intro cid'
+  rw [href cid']
+  apply List.map_congr_left
+  intro y hy
+  cases hk : (y.cid == l.cid && y.loopNum == l.loopNum) with
+  | false => rfl
+  | true =>
+    simp only [if_true]
+    have hyk : y.cid = l.cid ∧ y.loopNum = l.loopNum := by simpa using hk
+    have hym := (List.mem_filter.mp hy).1
+    have : y = x := loopKey_unique d1.loops hinv1.loopPK y hym x hx1 (by rw [hyk.1, hxk.1]) (by rw [hyk.2, hxk.2])
+    rw [this, hnil1]
+    rfl
 
 /-- `absLoops` is what `abs` shows as the loops of a container -/
 theorem C04_absLoops_is_abs (d : Db) (fuel cid : Nat) (code : Str) : (absContainer d (fuel + 1) cid code).loops = absLoops d cid := by
